@@ -121,6 +121,12 @@ CLAIMED["C07"] = {
     "technique": "property-based testing: round-trip (pickle) and differential across processes / rebuilds",
 }
 
+CLAIMED["C09"] = {
+    "text": "HISTORIES: Hypothesis-generated sequences (<= 25 quick / 45 thorough steps) of build / compute / compute_many / optimize / graph / persist / rebuild / drop+gc steps over a pool of variables sharing leaves and subtrees, every step under a freshly drawn setting of the eight listed configuration keys, in one process whose lowering cache and singleton registry persist across the shard; every compute must equal the NumPy value fixed at build time. " + EXPL,
+    "note": "NumPy twin fixed at build time is the reference; configuration applied with dask.config.set around each step so construction-time and graph-build-time reads are drawn independently; statements in regions of listed findings are not generated.",
+    "technique": "stateful property-based testing (history interpreter driven by Hypothesis draws) with a NumPy model invariant",
+}
+
 NOT_APPLICABLE = {
     "C22": "native Rust extension cannot be built offline (pyo3 0.29 and other crates are absent from the offline cargo registry; no prebuilt .so), so no native layer can be instantiated to generate inputs against; see DESIGN.md section 4 C22",
 }
